@@ -223,6 +223,12 @@ def check_scaling(case, ctx):
     b = lib.must(lib.KemenyComputingFactory(t).get_kemeny_score, c, d)
     if float(b) != float(a) * float(k):
         raise Violation("score under %r * s is %r, %r * score under s is %r" % (k, b, k, float(a) * float(k)))
+    # the same two scores read through Consensus objects built directly
+    ca = lib.must(lambda: lib.Consensus([c], d, s).kemeny_score)
+    cb = lib.must(lambda: lib.Consensus([c], d, t).kemeny_score)
+    if float(ca) != float(a) or float(cb) != float(b):
+        raise Violation("Consensus([c], d, s).kemeny_score = %r (factory: %r); under %r * s: %r (factory: %r)" % (
+            ca, a, k, cb, b))
     a0 = lib.must(factory_before.get_kemeny_score, c, d)
     if float(a0) != float(a):
         raise Violation("a score factory built on s before the multiplication by %r now gives %r, not %r" % (k, a0, a))
